@@ -398,6 +398,18 @@ func c03Guard(p *Prog, r *Report) {
 				if c, ok := e.(*ast.CallExpr); ok && env.Pkg == fi.Pkg && p.callIs(fi.Pkg, c, kFileLatest) {
 					return &Val{Fields: map[string]*Val{"Seq": intVal(latest)}}, true
 				}
+				// a local declared without a value and assigned once (var bound Seq; if bounded { bound = *filter.BeforeSeq })
+				if id, ok := e.(*ast.Ident); ok && env.Pkg == fi.Pkg {
+					if o, isVar := objOf(info, id).(*types.Var); isVar && !o.IsField() && env.Vars[o] == nil && o.Pos() > fi.Decl.Pos() && o.Pos() < fi.Decl.End() {
+						if rhs := singleAssignedIn(info, fi.Decl.Body, o); rhs != nil {
+							if _, bad := rhs.(*ast.BadExpr); !bad {
+								if _, isLit := ast.Unparen(rhs).(*ast.FuncLit); !isLit {
+									return env.eval(rhs), true
+								}
+							}
+						}
+					}
+				}
 				// the version the transaction itself wrote (n.V() of the popped node)
 				if c, ok := e.(*ast.CallExpr); ok && env.Pkg == fi.Pkg && p.callIs(fi.Pkg, c, "(*internal/model/core.Node).V") {
 					return &Val{Fields: map[string]*Val{"Seq": intVal(own), "Key": strVal("k")}}, true
@@ -990,6 +1002,31 @@ func conflictIf(info *types.Info, body *ast.BlockStmt) *ast.IfStmt {
 func conflictIf0(info *types.Info, body *ast.BlockStmt) *ast.IfStmt {
 	var ifs *ast.IfStmt
 	ast.Inspect(body, func(x ast.Node) bool {
+		// a clause of a tagless switch is an if: switch { case conflict: return ..., ErrTxSerialization }
+		if sw, ok := x.(*ast.SwitchStmt); ok && sw.Tag == nil && sw.Init == nil {
+			for _, cl := range sw.Body.List {
+				cc, ok := cl.(*ast.CaseClause)
+				if !ok || len(cc.List) != 1 {
+					continue
+				}
+				x = &ast.IfStmt{If: cc.Pos(), Cond: cc.List[0], Body: &ast.BlockStmt{Lbrace: cc.Colon, List: cc.Body, Rbrace: cc.End()}}
+				if s := x.(*ast.IfStmt); true {
+					for _, b := range s.Body.List {
+						if as, ok := b.(*ast.AssignStmt); ok && len(as.Rhs) == 1 && exprObjKey(info, as.Rhs[0]) == "fs_db.ErrTxSerialization" {
+							ifs = s
+						}
+						if rs, ok := b.(*ast.ReturnStmt); ok {
+							for _, e := range rs.Results {
+								if strings.Contains(valueKey(info, e), "fs_db.ErrTxSerialization") {
+									ifs = s
+								}
+							}
+						}
+					}
+				}
+			}
+			return true
+		}
 		if s, ok := x.(*ast.IfStmt); ok {
 			for _, b := range s.Body.List {
 				if as, ok := b.(*ast.AssignStmt); ok && len(as.Rhs) == 1 && exprObjKey(info, as.Rhs[0]) == "fs_db.ErrTxSerialization" {
